@@ -547,3 +547,110 @@ func cutsetRule(w *World, r *Result, only func(rel string) bool) int {
 	}
 	return n
 }
+
+// aliasStoreRule (ALIAS-STORE): a node of the analysis is shared by everything that refers to the type; writing into the
+// elements of one of its slices through a local that merely aliases the field (`fs := st.Fields; fs[i].Tag = …`), or
+// through the field itself, changes the node for every other user (the struct analysed on its own, other embedders).
+// Accepted: stores into slices of a node that this very function builds (composite literal or new), and stores through
+// a copy (slices.Clone, append to a nil/empty slice, make+copy).
+func aliasStoreRule(w *World, r *Result, only func(rel string) bool) int {
+	n := 0
+	for _, fi := range sortedFuncs(w) {
+		rel := w.Rel(fi.Obj.Pkg())
+		if fi.Decl.Body == nil || (only != nil && !only(rel)) {
+			continue
+		}
+		info := fi.Pkg.TypesInfo
+		isNodeField := func(e ast.Expr) (types.Object, bool) { // X.F with X a variable holding an analysis node
+			sel, ok := ast.Unparen(e).(*ast.SelectorExpr)
+			if !ok {
+				return nil, false
+			}
+			f, ok := info.Uses[sel.Sel].(*types.Var)
+			if !ok || !f.IsField() || f.Pkg() == nil || w.Rel(f.Pkg()) != "analysis" {
+				return nil, false
+			}
+			if _, isSlice := f.Type().Underlying().(*types.Slice); !isSlice {
+				return nil, false
+			}
+			id := identOf(sel.X)
+			if id == nil {
+				return nil, false
+			}
+			// the owner is a node of the analysis (implements analysis.Type), not a helper struct of the package
+			if itf, ok := w.TypeOf("analysis", "Type").Underlying().(*types.Interface); ok {
+				if t := info.TypeOf(sel.X); t == nil || !(types.Implements(t, itf) || types.Implements(types.NewPointer(t), itf)) {
+					return nil, false
+				}
+			}
+			return objOf(info, id), true
+		}
+		built := func(o types.Object) bool { // the node is created in this function
+			for _, d := range defsIn(info, fi.Decl, o) {
+				switch v := ast.Unparen(d).(type) {
+				case *ast.UnaryExpr:
+					if _, ok := v.X.(*ast.CompositeLit); ok {
+						return true
+					}
+				case *ast.CompositeLit:
+					return true
+				case *ast.CallExpr:
+					if isBuiltinCall(info, v, "new") {
+						return true
+					}
+				}
+			}
+			return false
+		}
+		ast.Inspect(fi.Decl.Body, func(x ast.Node) bool {
+			as, ok := x.(*ast.AssignStmt)
+			if !ok {
+				return true
+			}
+			for _, l := range as.Lhs {
+				// find the indexed slice at the root of the left-hand side: S[i], S[i].F, …
+				var ix *ast.IndexExpr
+				e := ast.Unparen(l)
+				for {
+					switch v := e.(type) {
+					case *ast.SelectorExpr:
+						e = ast.Unparen(v.X)
+						continue
+					case *ast.IndexExpr:
+						ix = v
+					}
+					break
+				}
+				if ix == nil {
+					continue
+				}
+				if _, isSlice := info.TypeOf(ix.X).Underlying().(*types.Slice); !isSlice {
+					continue
+				}
+				src := ast.Unparen(ix.X)
+				via := ""
+				if id := identOf(src); id != nil {
+					ds := defsIn(info, fi.Decl, objOf(info, id))
+					if len(ds) != 1 {
+						continue
+					}
+					via = id.Name + " := " + es(ds[0])
+					src = ast.Unparen(ds[0])
+				}
+				owner, isField := isNodeField(src)
+				if !isField || owner == nil || built(owner) {
+					continue
+				}
+				n++
+				cons := normLocals(info, l)
+				why := "the element is stored into a slice of an analysis node that this function did not build"
+				if via != "" {
+					why += " (through the alias `" + via + "`, which shares the backing array)"
+				}
+				r.bad("ALIAS-STORE", fi.Name, cons, w.Pos(as.Pos()), why+": the node is shared by every place the type occurs, so the change shows wherever it is used (the struct analysed on its own, other structs embedding it); copy the slice first")
+			}
+			return true
+		})
+	}
+	return n
+}
